@@ -415,6 +415,27 @@ impl Gen {
             _ => "false".into(),
         }
     }
+    /// An element of a list / tuple / interpolation: an expression, or — inside a loop / function — a conditional
+    /// `break` / `continue` / `return` in expression position (since 2f5d1ea the compiler finishes the open builders
+    /// of the loop body before such a jump; since 97373d1 the VM discards a frame's builders on return).
+    fn elem(&mut self, sc: &Scope, d: u32) -> String {
+        let inner = Scope { no_jump: true, ..sc.clone() };
+        if sc.in_loop && self.rng.chance(1, 6) {
+            let c = self.expr(&inner, 1);
+            return match self.rng.below(4) {
+                0 => format!("(if {} then break)", c),
+                1 => format!("(if {} then continue)", c),
+                2 => format!("(if {} then break else {})", c, self.lit()),
+                _ => format!("(if {} then {} else continue)", c, self.lit()),
+            };
+        }
+        if sc.in_fn && !sc.in_gen && self.rng.chance(1, 12) {
+            let c = self.expr(&inner, 1);
+            let e = self.expr(&inner, 1);
+            return format!("(if {} then return {})", c, e);
+        }
+        self.expr(&inner, d)
+    }
     fn expr(&mut self, sc: &Scope, d: u32) -> String {
         if d == 0 {
             return if self.rng.chance(1, 2) { self.var(sc) } else { self.lit() };
@@ -431,12 +452,12 @@ impl Gen {
             7 => format!("(-{})", self.var(sc)),
             8 => {
                 let n = self.rng.below(5);
-                let xs: Vec<String> = (0..n).map(|_| self.expr(&inner, d - 1)).collect();
+                let xs: Vec<String> = (0..n).map(|_| self.elem(sc, d - 1)).collect();
                 format!("[{}]", xs.join(", "))
             }
             9 => {
                 let n = 2 + self.rng.below(3);
-                let xs: Vec<String> = (0..n).map(|_| self.expr(&inner, d - 1)).collect();
+                let xs: Vec<String> = (0..n).map(|_| self.elem(sc, d - 1)).collect();
                 format!("({})", xs.join(", "))
             }
             10 => {
@@ -448,6 +469,13 @@ impl Gen {
                 let _ = &inner;
                 let a = if self.rng.chance(1, 2) { self.var(sc) } else { format!("({} + {})", self.var(sc), self.rng.below(500)) };
                 let b = if self.rng.chance(1, 2) { self.var(sc) } else { self.rng.below(3000).to_string() };
+                if sc.in_loop && self.rng.chance(1, 6) {
+                    // a conditional jump in an interpolated expression (no quotes inside the quotes)
+                    let v = self.var(sc);
+                    let kw = *self.rng.pick(&["break", "continue"]);
+                    let n = self.rng.below(3);
+                    return format!("'a{{{}}}b{{if {} == {} then {}}}c{{{}}}'", a, v, n, kw, b);
+                }
                 let fmt = *self.rng.pick(&["", ":>6", ":<4", ":^8.2", ":_>5", ":?", ":x", ":08.3e"]);
                 format!("'a{{{}}}b{{{}{}}}'", a, b, fmt)
             }
@@ -1804,12 +1832,8 @@ impl Ctx {
         let reason = wf.strip_prefix("fail ").unwrap_or(wf);
         let (name, rest) = reason.split_once('@').unwrap_or((reason, ""));
         let _ = rest;
-        let unbalanced = name == "unbalanced-builders-or-try";
-        let id = if unbalanced && p.shape.jump_in_builder {
-            Some("F-C05-5")
-        } else {
-            None
-        };
+        // (F-C05-5, break / continue inside a literal, is repaired — 2f5d1ea —: no failure is attributed any more)
+        let id: Option<&str> = None;
         match id {
             Some(id) if self.is_open(id) => self.attributed(id, &p.origin),
             _ => self.rep.violation(
@@ -2045,6 +2069,9 @@ fn boundary_cases() -> Vec<(String, usize, String, String)> {
         ("g = || g\ntype g()()\n", "value sx46756e6374696f6e"),
         ("f = ([|| f], [1, 2, 3])[0][0]\ntype f()\n", "value sx46756e6374696f6e"),
         ("f = [|| f, 7][0]\ntype f()\n", "value sx46756e6374696f6e"),
+        // wave 4: the function is a call argument, gone when `x` is committed; the VM has a message for exactly this
+        // (run_capture_value: "function not found while attempting to capture a value") but the register holds Null
+        ("x = (1..10).find |n| n == x\nx\n", "error function_not_found_while_attempting_to_capture_a_value"),
     ].iter().enumerate() {
         v.push(("deferred-self-capture".into(), k, prog.to_string(), exp.to_string()));
     }
@@ -2059,6 +2086,72 @@ fn boundary_finding(family: &str, _n: usize) -> Option<&'static str> {
         "deferred-self-capture" => Some("F-C05-12"),
         _ => None,
     }
+}
+
+/// `break` / `continue` in expression position inside list / tuple literals and interpolated strings (nested up to
+/// three deep, also in a literal of more than 64 elements, which is built in batches), in every kind of loop, plain /
+/// inside a try block in the loop / in a loop inside a try block / as a call argument. Oracle: the program must give the
+/// same value as its REFERENCE, in which the hole is the value the expression has when it does not jump and the jump is a
+/// statement of its own in front of the literal (the elements are pure, so nothing observable happens between).
+/// (label, program, reference)
+fn jump_in_builder_grid() -> Vec<(String, String, String)> {
+    let big: String = (100..170).map(|k| k.to_string()).collect::<Vec<_>>().join(", ");
+    let templates: Vec<(&str, String)> = vec![
+        ("L-mid", "[i, @H, 9]".into()), ("T-first", "(@H, i)".into()), ("L-last", "[i, 8, @H]".into()),
+        ("S-mid", "'a{i}b{@H}c'".into()), ("S-first", "'{@H}x{i}'".into()),
+        ("LL", "[[i, @H], 7]".into()), ("LT", "[(1, @H), [2]]".into()), ("SL", "'p{[i, @H]}q'".into()),
+        ("LS", "[0, 's{@H}t', i]".into()), ("TSL", "('u{i}', [@H])".into()), ("SS", "\"a{'b{@H}c'}d\"".into()),
+        ("LLL", "[[[@H, i]], 2]".into()), ("LSTL", "[1, 'x{(i, [@H])}y']".into()), ("SLS", "'a{[\"b{@H}\"]}c'".into()),
+        ("big-last", format!("[{}, @H]", big)), ("big-mid", format!("[{}, @H, {}]", big, big)),
+        ("big-nested", format!("[0, [{}, @H], (5, '{{i}}')]", big)),
+    ];
+    // (name, hole expression, its value when it does not jump, the jump as a statement)
+    let holes: Vec<(&str, &str, &str, &str)> = vec![
+        ("if-break", "(if i == 1 then break)", "null", "if i == 1 then break"),
+        ("if-continue", "(if i == 1 then continue)", "null", "if i == 1 then continue"),
+        ("if-break-else", "(if i == 2 then break else 2)", "2", "if i == 2 then break"),
+        ("if-else-continue", "(if i != 2 then 4 else continue)", "4", "if i == 2 then continue"),
+        ("break", "(break)", "null", "break"),
+        ("continue", "(continue)", "null", "continue"),
+    ];
+    let loops: Vec<(&str, &str)> = vec![
+        ("for", "for i in 0..4\n"),
+        ("while", "i = -1\nwhile i < 3\n  i += 1\n"),
+        ("until", "i = -1\nuntil i >= 3\n  i += 1\n"),
+        ("loop", "i = -1\nloop\n  i += 1\n  if i > 3 then break\n"),
+    ];
+    let mut v = vec![];
+    for (tn, t) in &templates {
+        for (hn, hole, val, stmt) in &holes {
+            for (ln, head) in &loops {
+                for ctx in ["plain", "try-in-loop", "loop-in-try", "call-arg", "nested-loop"] {
+                    let lit_a = t.replace("@H", hole);
+                    let lit_b = t.replace("@H", val);
+                    let mk = |lit: &str, pre: Option<&str>| -> String {
+                        let head_ind = |ind: &str| -> String { head.lines().map(|l| format!("{}{}\n", ind, l)).collect() };
+                        let pre_line = |ind: &str| -> String { pre.map(|p| format!("{}{}\n", ind, p)).unwrap_or_default() };
+                        match ctx {
+                            "plain" => format!("r = []\n{}{}  v = {}\n  r.push v\nr.push 'end'\nr\n", head_ind(""), pre_line("  "), lit),
+                            "call-arg" => format!("r = []\n{}{}  r.push {}\nr.push 'end'\nr\n", head_ind(""), pre_line("  "), lit),
+                            "try-in-loop" => format!(
+                                "r = []\n{}  try\n{}    v = {}\n    r.push v\n  catch e\n    r.push 'caught'\n  finally\n    r.push 'f'\ntry\n  throw 'x'\ncatch e2\n  r.push 'outer'\nr\n",
+                                head_ind(""), pre_line("    "), lit),
+                            "loop-in-try" => format!(
+                                "r = []\ntry\n{}{}    v = {}\n    r.push v\n  throw 'after'\ncatch e\n  r.push 'caught {{e}}'\nr\n",
+                                head_ind("  "), pre_line("    "), lit),
+                            // the loop is itself an element of an outer literal, whose builder the jump must NOT finish
+                            _ => format!("r = []\ny = [0, (for j in 0..2\n{}{}    v = {}\n    r.push v\n), 's{{size r}}']\n(y, r)\n",
+                                head_ind("  "), pre_line("    "), lit),
+                        }
+                    };
+                    let a = mk(&lit_a, None);
+                    let b = mk(&lit_b, Some(stmt));
+                    v.push((format!("jump-in-builder:{}:{}:{}:{}", tn, hn, ln, ctx), a, b));
+                }
+            }
+        }
+    }
+    v
 }
 
 /// Functions with `d` default arguments per level, `k` closures nested in them, `c` captured locals, reading an id
@@ -2144,6 +2237,11 @@ fn behaviour_cases() -> Vec<(&'static str, String, String)> {
         ("F-C05-6(continue out of nested try)", "n = 0\nfor x in 0..3\n  try\n    try\n      n += 1\n      continue\n    catch a\n      n += 100\n  catch b\n    n += 1000\ntry\n  throw 'z'\ncatch c\n  n += 10\nn\n".into(), "value i13".into()),
         ("non-locals reach a function with an optional argument and the closure nested in it (NON_LOCAL_ACCESS flag)",
             "make_adder = |n = 1|\n  add = |x| x + n + offset\n  add\nexport offset = 10\nadder = make_adder()\nf = |n = 1| n + offset\n(adder(5), f(), f(2))\n".into(), "value (t i16 i11 i12)".into()),
+        ("F-C05-5(continue in list literal, 2f5d1ea)", "r = []\nfor x in (1, 2)\n  y = [1, (if x == 1 then continue), 3]\n  r.push y\n'{r}'\n".into(), s("[[1, null, 3]]")),
+        ("F-C05-5(break in interpolation, 2f5d1ea)", "r = ''\nfor x in (1, 2)\n  r = 'a{x}{if x == 1 then break}'\n'<{r}>'\n".into(), s("<>")),
+        ("F-C05-5(continue in interpolation, 2f5d1ea)", "out = []\nfor i in 0..4\n  s = \"a{i}b{if i < 2 then continue}c\"\n  out.push s\n'{out}'\n".into(), s("['a2bnullc', 'a3bnullc']")),
+        ("F-C05-5(break in a nested literal of more than 64 elements, inside an outer literal, 2f5d1ea)",
+            format!("y = [0, (for i in 0..3\n  x = [{}, (if i == 1 then break else 2)]\n), 5]\n'{{y}}'\n", (100..170).map(|k| k.to_string()).collect::<Vec<_>>().join(", ")), s("[0, null, 5]")),
         ("F-C05-7(bare return nested in a block, aad4e1c)", "f = |c|\n  if c\n    return\ng = |c|\n  for i in 0..2\n    if c\n      return\n'{f false}{f true}{g false}'\n".into(), s("nullnullnull")),
     ]
 }
@@ -2402,6 +2500,32 @@ fn real_main() -> i32 {
                 "note": "a called closure nested in functions with default arguments does not see a non-local that is available when it runs"}));
         } else {
             cx.rep.bump("nonlocal-grid=ok");
+        }
+    }
+    cx.flush();
+    // 4a'. break / continue inside literals and interpolations, against the reference with the jump as a statement
+    for (label, prog, reference) in jump_in_builder_grid() {
+        cx.submit(&label, &prog, false);
+        let mut ask = |p: &str| match cx.worker.request(&format!("v {}", kvh::hex(p.as_bytes())), Duration::from_secs(20)) {
+            Reply::Ok(s) => s,
+            Reply::Timeout => "timeout".into(),
+            Reply::Died(x) => format!("died {}", x),
+        };
+        let got = ask(&prog);
+        let want = ask(&reference);
+        cx.rep.case(&label, true);
+        if !want.starts_with("value ") {
+            cx.rep.violation("K", "C05:jump-in-builder:reference", json!({"case": label, "reference": reference, "observed": want,
+                "note": "the reference program of the grid does not produce a value (harness defect)"}));
+        } else if got == "compile-error" {
+            // rejecting the program is not misbehaviour (`'{(break)}'`: "the compiled expression has no output")
+            cx.rep.bump("jump-in-builder=compile-error");
+        } else if got != want {
+            cx.rep.violation("D", "C05:jump-in-builder", json!({"case": label, "program": prog, "input_hex": kvh::hex(prog.as_bytes()),
+                "reference": reference, "expected": want, "observed": got,
+                "note": "break / continue inside a literal or interpolation behaves differently from the same jump in front of the literal"}));
+        } else {
+            cx.rep.bump("jump-in-builder=ok");
         }
     }
     cx.flush();
